@@ -318,6 +318,24 @@ func TestPropLayouts(t *testing.T) {
 	rec.ClassN("expressions of the layout family (enumerated completely)", total)
 }
 
+// TestPropDeep: every expression slot nested 0..24 levels deep in each kind of block.
+func TestPropDeep(t *testing.T) {
+	shard, shards := ev.Shard()
+	total := 0
+	oneline.EachDeep(shard, shards, 24, func(name, src string) {
+		n, err := decide(src, nil)
+		rec.Eval(n)
+		total += n
+		if n > 0 {
+			rec.NonTrivial(src, func() any { return map[string]any{"layout": name, "source": clip(src)} })
+		}
+		if err != nil {
+			rec.Fail(t, Case{Source: ev.QStr(src)}, "nested %s: %v", name, err)
+		}
+	})
+	rec.ClassN("expressions nested 0..24 levels deep (enumerated completely)", total)
+}
+
 func knownClass(string, error) string { return "" }
 
 func TestPropGenerated(t *testing.T) {
